@@ -1,0 +1,23 @@
+//go:build verif
+
+// Contracts for the deductive verifier in /verif (govc). Comment-only.
+
+package compress
+
+//@ # C14 (reuse): whatever happens to one chunk - including a decode error - the reader is left with empty
+//@ # buffers and a stream reader attached to the (empty) input buffer, so the next chunk is decoded on its own
+//@ func snappyReader.Uncompress
+//@   prop C14
+//@   requires r.reader != nil
+//@   modifies any(bytes.Buffer).unread, r.reader.src
+//@   ensures[reuse_starts_clean] r.compressed.unread == 0 && r.decompressed.unread == 0 && r.reader.src == cast(&r.compressed, "ref")
+//@   ensures[error_returns_no_data] result1 != nil ==> len(result0) == 0
+//@ end
+//@ func snappyWriter.Bytes
+//@   prop C14
+//@   requires w.writer != nil
+//@   modifies w.buffer.unread, w.writer.dst
+//@   fresh
+//@   ensures[returns_a_copy_of_all_compressed_bytes] len(r) == old(w.buffer.unread)
+//@   ensures[reuse_starts_clean] w.buffer.unread == 0
+//@ end
